@@ -38,11 +38,20 @@ def scenario_actions(w, A, decoys=False):
     decoys: further definitions for the same OS on the other services / processes"""
     import nasim.scenarios.utils as u
     if decoys:
+        other_os = [o for o in w.oss if o != A.os]
+        if A.kind == 'exploit' and other_os:
+            w.scenario_dict[u.EXPLOITS]['e_decoy_same_service'] = {
+                u.EXPLOIT_SERVICE: A.name, u.EXPLOIT_OS: other_os[0] if A.os is not None else w.oss[0],
+                u.EXPLOIT_PROB: 0.5, u.EXPLOIT_COST: 6, u.EXPLOIT_ACCESS: 1}
         for s_ in w.services:
             if not (A.kind == 'exploit' and s_ == A.name):
                 w.scenario_dict[u.EXPLOITS]['e_decoy_' + s_] = {
                     u.EXPLOIT_SERVICE: s_, u.EXPLOIT_OS: A.os if A.kind == 'exploit' else None,
                     u.EXPLOIT_PROB: 0.5, u.EXPLOIT_COST: 7, u.EXPLOIT_ACCESS: 1}
+        if A.kind == 'privesc' and other_os:
+            w.scenario_dict[u.PRIVESCS]['pe_decoy_same_process'] = {
+                u.PRIVESC_PROCESS: A.name, u.PRIVESC_OS: other_os[0] if A.os is not None else w.oss[0],
+                u.PRIVESC_PROB: 0.5, u.PRIVESC_COST: 8, u.PRIVESC_ACCESS: 2}
         for p_ in w.procs:
             if not (A.kind == 'privesc' and p_ == A.name):
                 w.scenario_dict[u.PRIVESCS]['pe_decoy_' + p_] = {
